@@ -206,6 +206,19 @@ func scan(t Tok) Obj {
 	panic("bad token")
 }
 
+// tokCount is the number of stack slots a scanner may need for t: one per
+// simple token, and for a procedure literal its braces plus its tokens.
+func tokCount(t Tok) int {
+	if t.Body == nil && t.Kind != TProc {
+		return 1
+	}
+	n := 2
+	for _, b := range t.Body {
+		n += tokCount(b)
+	}
+	return n
+}
+
 func (m *Machine) push(o ...Obj) { m.OS = append(m.OS, o...) }
 
 func (m *Machine) popN(n int) { m.OS = m.OS[:len(m.OS)-n] }
@@ -267,6 +280,14 @@ func (m *Machine) loop(base int) *PSError {
 			}
 			t := f.toks[f.pc]
 			f.pc++
+			if n := tokCount(t); n > 1 && len(m.OS)+n > MaxOperandStack-50 {
+				// an interpreter may collect the tokens of a procedure
+				// literal on the operand stack while it scans the body (Adobe's
+				// do): a long literal met on a well-filled stack may or may not
+				// overflow
+				m.Ambiguous = "operand stack near its limit while a procedure literal is scanned"
+				return perr("stackoverflow", "operand stack")
+			}
 			err = m.execute(scan(t), true)
 		case fProc:
 			el := f.proc.Elems()
